@@ -320,6 +320,13 @@ def run():
         scs.append(bping_burst("C15/bping/%d-%d/16" % (I, T), I, T, 16))
     # the broker floods the client with e2e calls nobody fetches (more than the 1024 + 8 the inboxes hold) while it keeps answering pings:
     # whatever happens to the surplus calls, pongs must still be read - the live connection is kept
+    # application requests whose callers give up (50 ms) before the broker answers (150 ms late): the late responses find nobody waiting -
+    # pongs behind them must still be read, the live connection is kept
+    ab = [{"a": "stallWatch"}, {"a": "rule", "rule": {"on": "UpstreamMetadata", "do": "delay", "arg": 150}}, {"a": "connect", "must": True}]
+    for n in range(3):
+        ab += [{"a": "sendMeta", "g": "A%d" % n, "tag": 40 + n, "ctxMs": 50}, {"a": "sleep", "ms": 250}]
+    ab += [{"a": "atMs", "c": 1, "ms": 2200}] + tail_steps()
+    scs.append({"id": "C15/live/200-100/abandonedRequests", "kind": "iscp", "conn": {"pingMs": [200, 100]}, "p": params(200, 100), "steps": ab})
     fl = [{"a": "stallWatch"}, {"a": "connect", "must": True}]
     fl += [{"a": "sendCall", "callID": "fl%d" % n, "tag": n % 200} for n in range(1100)]
     fl += [{"a": "atMs", "c": 1, "ms": 1800}] + tail_steps()
